@@ -179,16 +179,25 @@ func (s *Sim) checkQueuePreemption(askKey string, victims []*MAlloc, now int64) 
 			continue
 		}
 		hasGuar = true
+		// the statement asks for a guarantee the path is still under; it does not tie it to the types of the ask
+		// (the core treats a type the guarantee does not mention as not holding the ask back)
+		needed := false
 		for t, g := range q.Guar {
-			if ask.Res[t] > 0 && q.Alloc[t] < g {
+			if q.Alloc[t] < g {
 				underGuar = true
+				if ask.Res[t] > 0 {
+					needed = true
+				}
 			}
+		}
+		if !needed {
+			s.probe("asker_under_guarantee_on_other_type_only")
 		}
 	}
 	if !hasGuar {
 		s.violate("C08", "asker-without-guarantee", "", "queue preemption for ask %s in %s: no queue on its path has guaranteed resources", askKey, askLeaf)
 	} else if !underGuar {
-		s.violate("C08", "asker-not-under-guarantee", "", "queue preemption for ask %s %s in %s: every guarantee on its path is already met for the types it needs", askKey, ask.Res, askLeaf)
+		s.violate("C08", "asker-not-under-guarantee", "", "queue preemption for ask %s %s in %s: every guarantee on its path is already met", askKey, ask.Res, askLeaf)
 	}
 	// replay the victims in order on a copy of the pre-step usage (net of what is already being preempted)
 	usage := map[string]Res{}
@@ -323,22 +332,29 @@ func (s *Sim) checkQuotaPreemption(queue string, victims []*MAlloc, now int64) {
 			s.violate("C08", "quota-claimed-too-much", "", "quota preemption for %s (excess %s) took %d victims %s although the first %d already cover the excess", queue, excess, n, total, n-1)
 		}
 	}
-	// guaranteed share of the queue itself is not touched
-	for t, g := range q.Guar {
-		if left := q.Alloc[t] - q.Preempting[t] - total[t]; left < g && total[t] > 0 && q.Alloc[t]-q.Preempting[t] > g {
-			// going below the guarantee is only acceptable by less than one victim (granularity)
-			minV := int64(1 << 60)
-			for _, v := range victims {
-				if v.Res[t] > 0 && v.Res[t] < minV {
-					minV = v.Res[t]
-				}
+	// never touches a queue at or below its guaranteed share: when a victim is taken, every queue from its leaf up
+	// to the queue the quota belongs to that has a guarantee is still above it on some guaranteed type (net of what
+	// is already being preempted and of the victims taken before it in this round)
+	cur := map[string]Res{}
+	for path, pq := range pre.Queues {
+		cur[path] = pq.Alloc.Sub(pq.Preempting)
+	}
+	for _, v := range victims {
+		vLeaf := s.appQueue(v.App)
+		for _, qp := range ancestors(vLeaf) {
+			pq := pre.Queues[qp]
+			if pq == nil || !under(qp, queue) || len(pq.Guar) == 0 {
+				continue
 			}
-			if g-left >= minV {
-				s.violate("C08", "quota-below-guarantee", "", "quota preemption takes %s of type %s from %s and leaves %d, its guaranteed share is %d", total, t, queue, left, g)
+			// at or below its share: nothing it uses exceeds what is guaranteed (a type without guarantee has none)
+			if cur[qp].FitsIn(pq.Guar) {
+				s.violate("C08", "quota-at-guarantee", "", "quota preemption for %s took victim %s %s from %s whose usage %s is at or below its guaranteed share %s", queue, v.Key, v.Res, qp, cur[qp], pq.Guar)
 			}
 		}
-		if q.Alloc[t]-q.Preempting[t] <= g && total[t] > 0 && len(q.Max) == 1 {
-			s.violate("C08", "quota-at-guarantee", "", "quota preemption took %s of type %s from %s which is at or below its guaranteed share %d", total, t, queue, g)
+		for _, qp := range ancestors(vLeaf) {
+			if c, ok := cur[qp]; ok {
+				cur[qp] = c.Sub(v.Res)
+			}
 		}
 	}
 }
